@@ -209,6 +209,8 @@ def tasks(tier, seed, selftest=False):
     # two independent switches: partial diagrams that contain every node of the full one but not every edge
     for sk in (("succ", "succ"), ("succ", "succ", "succ"), ("bfs", "succ"), ("succ", "dfs")):
         S.append(dict(family="P:SW2+SW2", skeleton=sk, timebox=15 if q else 600))
+    # a minimal trap space that holds two attractors (summary / seeds must list both)
+    S.append(dict(family="TWOATT3", skeleton=("build",), timebox=10 if q else 300))
     # diagrams with a shortcut edge (a node with parents at different depths), in both answer orders
     for sk in (("succ", "succ"), ("succ", "dfs"), ("dfs", "bfs"), ("bfs", "succ"), ("succ", "succ", "succ")):
         for order in ("canonical", "reversed"):
